@@ -117,7 +117,7 @@ theorem sendStored_sl (c : C) (h : SL K c.s.store) : SL K (sendStored c).s.store
   exact sendStoredLoop_sl _ _ h
 
 theorem resendStored_store (c : C) : (resendStored c).s.store = (sendStored c).s.store := by
-  rcases resendStored_s c with h | h <;> rw [h]
+  rcases resendStored_s_cases c with h | h <;> rw [h]
 theorem resendStored_sl (c : C) (h : SL K c.s.store) : SL K (resendStored c).s.store := by
   rw [resendStored_store]; exact sendStored_sl c h
 
